@@ -303,6 +303,7 @@ class Splice:
         self.before = []        # [(pattern, occurrence, [(tline,text)])]
         self.after = []
         self.tail = []          # before the last non-blank line of the body (a one-line tail expression)
+        self.exit = []          # before the closing brace of the body (functions that end without a tail expression)
 
 
 def extract_function(src, relpath, container, name, splice, opts):
@@ -354,6 +355,12 @@ def extract_function(src, relpath, container, name, splice, opts):
     inserts_before_line = {}   # line idx -> list of (tl,text)   (inserted before that line)
     inserts_after_line = {}
     brace_splits = {}          # line idx -> col where line must be split (loop body brace)
+    if opts.get('variant') == 'reject' and opts.get('loops') != 'manual':
+        # rejection variant: everything after the diverging verif_reject() is dead code; loops get `invariant false`
+        for k, (kw, ob) in enumerate(loops):
+            if (k + 1) not in splice.loops:
+                is_for = body[kw:kw + 3] == 'for'
+                splice.loops[k + 1] = [(('<auto-reject>', 0), '            invariant false,' + ('' if is_for else ' decreases 0int,'))]
     for ordn, items in splice.loops.items():
         if ordn < 1 or ordn > len(loops):
             raise ExtractError('lost anchor: fn `%s` has %d loops, spec refers to loop %d' % (name, len(loops), ordn))
@@ -390,6 +397,10 @@ def extract_function(src, relpath, container, name, splice, opts):
         if k <= 0:
             raise ExtractError('no tail line in fn `%s`' % name)
         inserts_before_line.setdefault(k, []).extend(splice.tail)
+    if splice.exit:
+        if blines[-1].strip() != '}':
+            raise ExtractError('closing brace of fn `%s` is not on its own line' % name)
+        inserts_before_line.setdefault(len(blines) - 1, []).extend(splice.exit)
     for i, l in enumerate(blines):
         org = ('src', relpath, body_first_line + i)
         for tl, t in inserts_before_line.get(i, []):
